@@ -163,7 +163,7 @@ def parseE : Nat → List String → Option (Expr × List String)
               some ((name, v), rest)
             | [] => none
           let (kws, rest) ← many kw (← nk.toNat?) rest
-          some (.call f args (kws.map (·.1)) (kws.map (·.2)), rest)
+          some (.call f args (kws.map fun kw => .keyword kw.1 kw.2), rest)
         | [] => none
       | [] => none
     | "su" :: rest => do
@@ -254,7 +254,7 @@ def parseD : Nat → List String → Option (Doc × List String)
               some ((name, v), rest)
             | [] => none
           let (kws, rest) ← many kw (← nk.toNat?) rest
-          some (.call f args (kws.map (·.1)) (kws.map (·.2)), rest)
+          some (.call f (args ++ kws.map fun kw => .keyword kw.1 kw.2), rest)
         | [] => none
       | [] => none
     | "su" :: rest => do
@@ -285,10 +285,12 @@ partial def showDoc : Doc → String
   | .setCall ds => "sc " ++ showDocs ds
   | .dict ks vs =>
     "di " ++ toString ks.length ++ String.join ((ks.zip vs).map fun (k, v) => " " ++ showDoc k ++ " " ++ showDoc v)
-  | .call f args kwn kwv =>
-    "ca " ++ showDoc f ++ " " ++ showDocs args ++ " " ++ toString kwn.length ++
-      String.join ((kwn.zip kwv).map fun (n, v) =>
-        " " ++ (match n with | some a => Proto.encodeStr a | none => "-") ++ " " ++ showDoc v)
+  | .call f args =>
+    let pos := args.filter (!·.isKeyword)
+    let kws := args.filter (·.isKeyword)
+    "ca " ++ showDoc f ++ " " ++ showDocs pos ++ " " ++ toString kws.length ++
+      String.join (kws.map fun k => " " ++ showDoc k)
+  | .keyword n v => (match n with | some a => Proto.encodeStr a | none => "-") ++ " " ++ showDoc v
   | .subscript v i => "su " ++ showDoc v ++ " " ++ showDoc i
   | .starred d => "st " ++ showDoc d
 partial def showDocs (ds : List Doc) : String :=
